@@ -45,6 +45,10 @@ type Spec struct {
 	Field  *sk.Field `json:"field"`
 	Meta   int       `json:"meta,omitempty"` // also render 2^-Meta * field and compare
 	Note   string    `json:"note,omitempty"`
+	// path "fine": public renderer on a very fine lattice, reference = finest cells overlapping the box
+	// path "reuse": ONE renderer object (Renderer: octree | quadtree | uniform) renders Seq in order
+	Renderer string `json:"renderer,omitempty"`
+	Seq      []Spec `json:"seq,omitempty"`
 }
 
 func (s *Spec) key() string {
@@ -565,13 +569,23 @@ func check(c *Ctx, r *Report) error {
 	}
 	for i := range specs {
 		sp := &specs[i]
-		if sp.Dim == 2 {
+		switch {
+		case sp.Path == "fine":
+			st.fine(sp, "corpus")
+		case sp.Path == "reuse":
+			st.reuse(sp, "corpus")
+		case sp.Path == "readback":
+			st.readback()
+		case sp.Dim == 2:
 			st.do2(sp, "corpus")
-		} else {
+		default:
 			st.do3(sp, "corpus")
 		}
 	}
 	if c.Replay == "" {
+		st.readback()
+		st.genFine(rng, c)
+		st.genReuse(rng, c)
 		reps := TierN(c.Tier, 5, 40, 20)
 		maxTop3 := TierN(c.Tier, 7, 7, 6)
 		// hook path: processCube / processSquare on dyadic lattices, every depth
